@@ -710,6 +710,31 @@ def battery():
     return fails
 
 
+def text_battery(kind):
+    """every text over {a, b, LF, CRLF} of up to 4 units in a long string / block comment, both settings: the output text is the input text
+    with each line break replaced by the configured one - nothing else (used when the symbolic kernel cannot follow format_token's rewrite)"""
+    import itertools
+    binp = common.native_build("default")
+    units = ["a", "b", "\n", "\r\n"]
+    for n in range(0, 5):
+        for tup in itertools.product(units, repeat=n):
+            text = "".join(tup)
+            for le in ("Unix", "Windows"):
+                if kind == "MultiLineComment":
+                    src, pre, post = "--[==[" + text + "]==]\nlocal x = 1\n", "--[==[", "]==]"
+                else:
+                    src, pre, post = "local s = [==[" + text + "]==]\n", "[==[", "]==]"
+                rc, out, err = common.run_stylua(binp, src, ["--line-endings", le])
+                if rc != 0 or pre not in out or post not in out:
+                    continue
+                got = out[out.index(pre) + len(pre):out.index(post)]
+                want = text.replace("\r\n", "\n").replace("\n", "\n" if le == "Unix" else "\r\n")
+                if got != want:
+                    return (f"--line-endings {le}: the {'block comment' if kind == 'MultiLineComment' else 'long string'} text {text!r} comes out as {got!r} (expected {want!r})",
+                            {"source": src, "flags": ["--line-endings", le], "output": out})
+    return None, {}
+
+
 def model_replay(kind, info):
     """replay the solver's text on the native build"""
     if "text" not in info:
@@ -768,6 +793,8 @@ def run(ses, rep):
     fails = None
     for oid, what, kind, info in flagged:
         v, rec = model_replay(kind, info)
+        if not v and kind == "text" and info.get("kind") in ("MultiLineComment", "StringLiteral"):
+            v, rec = text_battery(info["kind"])
         if v:
             st = rep.violation({"obligation": kind, **{k: v_ for k, v_ in info.items() if k in ("kind", "line_endings")}}, {"what": what, "observed": v, **rec})
             rep.add(oid, st, f"{what}; native: {v}")
